@@ -297,6 +297,28 @@ fn run_ops(case: &str) -> (String, String, String) {
                         }
                     }
                 }
+                // what a `trap` command does to a delivery still pending: accepted → the new state is recorded, NOT
+                // pending (that delivery runs neither action; the new action is for the next delivery); rejected →
+                // the pending flag is as before
+                {
+                    let was: Vec<bool> = before.iter().map(|v| v.split('/').next().is_some_and(|c| c.ends_with(".1"))).collect();
+                    let now = w.views();
+                    for (i, (name, n)) in CONDS.iter().enumerate() {
+                        let is_now = now[i].split('/').next().is_some_and(|c| c.ends_with(".1"));
+                        let this = match (cond, n) {
+                            (Condition::Exit, None) => true,
+                            (Condition::Signal(a), Some(b)) => a == *b,
+                            _ => false,
+                        };
+                        if this && res.is_ok() {
+                            if is_now {
+                                fail = Some(format!("trap-command-left-pending:{name}"));
+                            }
+                        } else if is_now != was[i] {
+                            fail = Some(format!("trap-command-changed-pending-of:{name}"));
+                        }
+                    }
+                }
                 match res {
                     Ok(()) => "ok".into(),
                     Err(SetActionError::InitiallyIgnored) => "initially-ignored".into(),
